@@ -2583,11 +2583,34 @@ where
 ///
 /// Returns a [`DelaunayRepairError`] if the repair fails to converge or an underlying
 /// flip operation encounters an unrecoverable error.
+pub(crate) fn repair_delaunay_with_flips_k2_k3<K, U, V, const D: usize>(
+    tds: &mut Tds<K::Scalar, U, V, D>,
+    kernel: &K,
+    seed_cells: Option<&[CellKey]>,
+    topology: TopologyGuarantee,
+) -> Result<DelaunayRepairStats, DelaunayRepairError>
+where
+    K: Kernel<D>,
+    K::Scalar: ScalarSummable,
+    U: DataType,
+    V: DataType,
+{
+    // A failed repair must leave the triangulation as it was. The attempt logic below restores its
+    // snapshot between attempts, but several error returns (a flip failing inside an attempt, the
+    // final attempt failing) left the partially flipped complex behind.
+    let pre_repair = tds.clone();
+    let result = repair_delaunay_with_flips_k2_k3_attempts(tds, kernel, seed_cells, topology);
+    if result.is_err() {
+        *tds = pre_repair;
+    }
+    result
+}
+
 #[expect(
     clippy::too_many_lines,
     reason = "Repair retries and tracing are kept together for clarity"
 )]
-pub(crate) fn repair_delaunay_with_flips_k2_k3<K, U, V, const D: usize>(
+fn repair_delaunay_with_flips_k2_k3_attempts<K, U, V, const D: usize>(
     tds: &mut Tds<K::Scalar, U, V, D>,
     kernel: &K,
     seed_cells: Option<&[CellKey]>,
